@@ -544,6 +544,7 @@ def annotate(evs, n):
                             # events are logged after the operation): the move is placed right before the steal
                             early[i].append((owner, mv))
                             ins["batch"] = i
+                            ins["early"] = (owner, ins["loc"][1])
                         ins["loc"] = ("buf", owner)
                         found = ins
                         break
@@ -569,10 +570,30 @@ def annotate(evs, n):
         # the consumer side window starts after the previous event of the thread that took it out of
         # the container it was pushed into (the batch poller, if it was batch-moved)
         take = ins["batch"] if ins["batch"] is not None else ci
+        pv_owner = None
+        if ins.get("early") is not None:
+            # batch-moved by a poll of `owner` of which (at least) the BucketPollBatch is logged after the thief's
+            # steal: the packet left its bucket inside that poll of the OWNER, i.e. after the owner's last event
+            # before its BucketPollOk — not after the thief's previous events.  (The owner's BucketPollOk itself may be
+            # logged before or after the steal; recorded log p158-ConcurrentImmix-w16: the owner was descheduled for
+            # ~100 events between its steal_batch_and_pop and its BucketPollOk, another worker parked in between.)
+            owner, st = ins["early"]
+            t = 100 + owner
+            j = next((x for x in range(take + 1, N) if evs[x][1] == t and evs[x][2] == K["BucketPollBatch"]
+                      and evs[x][3] == st), None)
+            if j is not None and prev_of[j] is not None:
+                take = prev_of[j]                                   # the owner's BucketPollOk
+            else:
+                # the log ends before the owner's BucketPollBatch
+                l = next((x for x in range(take - 1, -1, -1) if evs[x][1] == t), None)
+                if l is not None and evs[l][2] == K["BucketPollOk"] and (evs[l][4] & 0xff) == st:
+                    take = l
+                elif l is not None:
+                    pv_owner = l
         # BucketPollBatch directly follows BucketPollOk of the same thread: step back over it
-        if ins["batch"] is not None and prev_of[take] is not None:
+        elif ins["batch"] is not None and prev_of[take] is not None:
             take = prev_of[take]
-        pv = prev_of[take] if take is not None else None
+        pv = pv_owner if pv_owner is not None else (prev_of[take] if take is not None else None)
         if nx is None:
             continue
         if take is not None and (pv is None or pv < nx):
@@ -1216,7 +1237,11 @@ def log_mutants(evs):
 # Recorded logs of real runs (KEEP kinds, spin cycles compressed) in which a mutator resumed by `on_gc_finished` pushes a
 # ProcessModBufSATB packet into the just-opened Concurrent bucket and calls `notify_one` while the last parked worker is
 # still inside its mutex-protected group (before `MonLastParked` / `notify_all`): (name, workers, mutAddOpen)
-FIXTURES = [("conc21-w2-resume-notify", 2, True), ("conc30-w4-resume-notify", 4, True)]
+FIXTURES = [("conc21-w2-resume-notify", 2, True, "resume-notify"), ("conc30-w4-resume-notify", 4, True, "resume-notify"),
+            # a worker's steal_batch_and_pop empties a bucket, the thread is descheduled before it logs BucketPollOk /
+            # BucketPollBatch; meanwhile another worker finds the bucket empty and parks, and a thief steals the
+            # batch-moved packet from the poller's deque (WorkerSteal logged before the poller's BucketPollBatch)
+            ("p158-concimmix-w16-late-poll-log", 16, True, "late-poll-log")]
 
 
 def load_fixture(name):
@@ -1282,18 +1307,53 @@ def annotate_override(evs, n, override):
     return [(t[0], t[1], t[2], t[3], tgt) if (t[0], t[1], t[2]) == (seq, tid, K["MonNotify"]) else t for t in toks]
 
 
+def late_poll_site(evs):
+    """(pe, ok, st, mp): a worker `o` whose BucketPollOk (index ok, bucket st) is logged late — another worker's
+    non-last MonPark (index mp) lies between o's previous event (index pe) and ok — and whose poll batch-moved a packet
+    that a thief stole before o's BucketPollBatch was logged.  None if the log has no such site."""
+    last = {}
+    prev_of = [None] * len(evs)
+    for i, e in enumerate(evs):
+        prev_of[i] = last.get(e[1])
+        last[e[1]] = i
+    for j, (seq, tid, k, a, b) in enumerate(evs):
+        if k != K["BucketPollBatch"] or tid < 100:
+            continue
+        ok = prev_of[j]
+        if ok is None or evs[ok][2] != K["BucketPollOk"] or prev_of[ok] is None:
+            continue
+        pe = prev_of[ok]
+        stolen = any(evs[x][2] == K["WorkerSteal"] and (evs[x][4] >> 40) == tid - 100 for x in range(ok, j))
+        mp = next((x for x in range(pe + 1, ok) if evs[x][2] == K["MonPark"] and evs[x][4] == 0 and evs[x][1] != tid), None)
+        if stolen and mp is not None and evs[pe][2] == K["PacketEnd"]:
+            return pe, ok, a, mp
+    return None
+
+
+def late_poll_mutants(evs):
+    """The parking worker can only have seen the bucket empty because the late logger had finished its previous packet
+    (and so could already have polled).  If that PacketEnd comes after the other worker's park, the poll that emptied
+    the bucket is later than the park: the worker parked with runnable work in an open bucket (sched:park-with-work)."""
+    site = late_poll_site(evs)
+    if site is None:
+        return []
+    pe, ok, st, mp = site
+    w = next((x for x in range(mp + 1, ok) if evs[x][1] == evs[mp][1]), mp)       # the parker's MonWait
+    return [("poller-still-running-when-other-worker-parks", evs[:pe] + evs[pe + 1:w + 1] + [evs[pe]] + evs[w + 1:], None)]
+
+
 def fixture_selftest(model):
     """Recorded real logs must be accepted; their corrupted versions must be rejected."""
     stat, accepted, refused = defaultdict(lambda: [0, 0]), [], []
-    for name, n, mut_open in FIXTURES:
+    for name, n, mut_open, kind in FIXTURES:
         evs = load_fixture(name)
         v, st = lean_replay(model, annotate(evs, n), n, mut_open)
         stat["recorded-log:" + name] = [1, 0 if v.startswith("viol") else 1]       # here "rejected" counts acceptance
         if v.startswith("viol"):
             refused.append(f"{name}: {v[:300]}")
-        muts = resume_notify_mutants(evs)
+        muts = resume_notify_mutants(evs) if kind == "resume-notify" else late_poll_mutants(evs)
         if not muts:
-            refused.append(f"{name}: the log no longer contains a mutator notify inside a WakeAll group")
+            refused.append(f"{name}: the log no longer contains its site ({kind})")
         for mname, evs2, ov in muts:
             v, st = lean_replay(model, annotate_override(evs2, n, ov), n, mut_open)
             stat[mname][0] += 1
@@ -1301,6 +1361,8 @@ def fixture_selftest(model):
                 stat[mname][1] += 1
             else:
                 accepted.append(f"{mname} on recorded log {name}")
+        if kind != "resume-notify":
+            continue
         # mutators pushing into an open bucket are only accepted under mutAddOpen
         v, st = lean_replay(model, annotate(evs, n), n, False)
         stat["mutator-push-into-open-bucket-without-mutAddOpen"][0] += 1
